@@ -22,7 +22,7 @@
    the c07-cuts stream replays them (and every other cut) on the real mint; they are listed in known_findings.json.
 *)
 From Coq Require Import ZArith List Bool.
-From Verif Require Import Model Sem InvDb InvSwap InvMint InvMelt Corollaries Queries Footprint HRel Global GlobalQuote GlobalValue GlobalErr GlobalQuery GlobalMelt GlobalKeys Cuts CutOrder Conc Races GlobalBalance GlobalLedger Reconf.
+From Verif Require Import Model Sem InvDb InvSwap InvMint InvMelt Corollaries Queries Footprint HRel Global GlobalQuote GlobalValue GlobalErr GlobalQuery GlobalMelt GlobalKeys Cuts CutOrder Conc Races GlobalBalance GlobalLedger Reconf Trace Admin AdminProofs.
 Import ListNotations.
 Open Scope Z_scope.
 
@@ -111,6 +111,14 @@ Theorem C07_request_run_never_panics : forall (cfg : config) (mem_ks : list ksro
        (forall (n : nat) (f : oracle) (w : world), snd (run_n n (op_prog cfg mem_ks active o) f w) <> Panicked).
 Proof. exact @request_run_never_panics. Qed.
 Print Assumptions C07_request_run_never_panics.
+
+Theorem C07_step_log_step : forall (cfg : config) (f : oracle) (w : world) (o : op), fst (step_log cfg f w o) = step cfg f w o.
+Proof. exact @step_log_step. Qed.
+Print Assumptions C07_step_log_step.
+
+Theorem C07_step_crash_log_step : forall (cfg : config) (k : nat) (w : world) (o : op), fst (step_crash_log cfg k w o) = step_crash cfg k w o.
+Proof. exact @step_crash_log_step. Qed.
+Print Assumptions C07_step_crash_log_step.
 
 Theorem C07_swap_cut_signatures_imply_spent : forall (mem_ks : list ksrow) (active : Z) (ins : list proof) (outs : list bmsg) 
          (sg : bool) (n : nat) (f : oracle) (w : world),
